@@ -332,6 +332,123 @@ func main() {
 	out.Def("enoentIsMiss", "Bool", xlib.LeanBool(!compTrueErr || notExistCaught))
 	out.Def("damagedIsMiss", "Bool", xlib.LeanBool(!compTrueErr || otherCaught))
 
+	// ---- retrieveCompressed: for EVERY header, unconditionally (a top-level statement of the loop body),
+	//      out, err := cache.ensureRetrieveReady(target, hdr.Name), and `out` is what MkdirAll / Symlink / OpenFile get
+	rc2 := f.Func("dirCache.retrieveCompressed")
+	prepEvery, destUsed, truncates := false, 0, false
+	ast.Inspect(rc2.Body, func(n ast.Node) bool {
+		fs2, ok := n.(*ast.ForStmt)
+		if !ok {
+			return true
+		}
+		hdrVar, outVar := "", ""
+		for _, st := range fs2.Body.List {
+			as, ok := st.(*ast.AssignStmt)
+			if !ok || len(as.Rhs) != 1 {
+				continue
+			}
+			c, ok := as.Rhs[0].(*ast.CallExpr)
+			if !ok {
+				continue
+			}
+			if strings.HasSuffix(callName(c), ".Next") && len(as.Lhs) == 2 {
+				hdrVar = ident(as.Lhs[0])
+			}
+			if callName(c) == recv(rc2)+".ensureRetrieveReady" && len(c.Args) == 2 && hdrVar != "" && f.Src(c.Args[1]) == hdrVar+".Name" && len(as.Lhs) == 2 {
+				outVar = ident(as.Lhs[0])
+				prepEvery = true
+			}
+		}
+		if outVar != "" {
+			ast.Inspect(fs2.Body, func(m ast.Node) bool {
+				if c, ok := m.(*ast.CallExpr); ok {
+					switch callName(c) {
+					case "os.MkdirAll":
+						if len(c.Args) >= 1 && ident(c.Args[0]) == outVar {
+							destUsed++
+						}
+					case "os.Symlink":
+						if len(c.Args) == 2 && ident(c.Args[1]) == outVar {
+							destUsed++
+						}
+					case "os.OpenFile":
+						if len(c.Args) == 3 && ident(c.Args[0]) == outVar {
+							destUsed++
+							truncates = strings.Contains(f.Src(c.Args[1]), "O_TRUNC")
+						}
+					}
+				}
+				return true
+			})
+		}
+		return false
+	})
+	out.Def("retrievePreparesEveryEntry", "Bool", xlib.LeanBool(prepEvery && destUsed == 3))
+	out.Def("retrieveOpenTruncates", "Bool", xlib.LeanBool(truncates))
+	// ---- ensureRetrieveReady: parent created when the name has a slash, then the destination unlinked UNCONDITIONALLY:
+	//      the RemoveAll is a top-level statement and nothing before it returns without an error
+	err2 := f.Func("dirCache.ensureRetrieveReady")
+	var readySeq []string
+	earlyOK := false
+	for _, st := range err2.Body.List {
+		switch x := st.(type) {
+		case *ast.IfStmt:
+			src := ""
+			if x.Init != nil {
+				src = f.Src(x.Init)
+			}
+			switch {
+			case strings.Contains(src, "RemoveAll("):
+				readySeq = append(readySeq, "unlink-dest")
+			case strings.Contains(f.Src(x.Cond), "ContainsRune(") && strings.Contains(f.Src(x.Cond), "'/'"):
+				readySeq = append(readySeq, "mkdir-parent-if-slash")
+			default:
+				readySeq = append(readySeq, "other-if")
+			}
+			if len(readySeq) > 0 && readySeq[len(readySeq)-1] != "unlink-dest" {
+				// a return with a nil error inside a statement that precedes the unlink skips it
+				ast.Inspect(x.Body, func(m ast.Node) bool {
+					if r, ok := m.(*ast.ReturnStmt); ok && len(r.Results) == 2 && f.Src(r.Results[1]) == "nil" {
+						seen := false
+						for _, q := range readySeq {
+							seen = seen || q == "unlink-dest"
+						}
+						if !seen {
+							earlyOK = true
+						}
+					}
+					return true
+				})
+			}
+		case *ast.ReturnStmt:
+			readySeq = append(readySeq, "return")
+		case *ast.AssignStmt:
+			readySeq = append(readySeq, "assign")
+		default:
+			readySeq = append(readySeq, "other")
+		}
+	}
+	out.Def("retrieveReadySeq", "List String", xlib.LeanStrList(readySeq))
+	out.Def("retrieveReadyReturnsBeforeUnlink", "Bool", xlib.LeanBool(earlyOK))
+	// ---- retrieveFiles (plain): every requested output is prepared the same way before it is linked back
+	rf2 := f.Func("dirCache.retrieveFiles")
+	plainPrep := false
+	ast.Inspect(rf2.Body, func(n ast.Node) bool {
+		rs, ok := n.(*ast.RangeStmt)
+		if !ok {
+			return true
+		}
+		for _, st := range rs.Body.List {
+			if as, ok := st.(*ast.AssignStmt); ok && len(as.Rhs) == 1 {
+				if c, ok := as.Rhs[0].(*ast.CallExpr); ok && callName(c) == recv(rf2)+".ensureRetrieveReady" && len(c.Args) == 2 && ident(c.Args[1]) == ident(rs.Value) {
+					plainPrep = true
+				}
+			}
+		}
+		return false
+	})
+	out.Def("plainRetrievePreparesEveryOut", "Bool", xlib.LeanBool(plainPrep))
+
 	// ---- getFullPath: Join(dir, pkg, name, b64(key)) + extra + suffix + cache.Suffix
 	gp := f.Func("dirCache.getFullPath")
 	gpP := paramNames(gp)
